@@ -1,6 +1,7 @@
 package simharness
 
 import (
+	"math"
 	"context"
 	"errors"
 	"fmt"
@@ -173,7 +174,7 @@ func runGateSeqOps(rc *RunCtx, prop string, fixed []gateOp, fixedBroker bool) {
 	tp := rc.Tape
 	sim := rc.Sim
 	h := &gateHarness{now: time.Date(2026, 5, 1, 0, 0, 0, 0, time.UTC), composeFail: map[int]bool{}, composeGate: map[int]bool{}, sendFail: map[int]bool{}}
-	E := []time.Duration{100, 1000, 10 * time.Second}[tp.Choose(3, "expiration")]
+	E := []time.Duration{100, 1000, 10 * time.Second, 100, time.Duration(math.MaxInt64)}[tp.Choose(5, "expiration")] // the last one: "never expire"
 	hasBroker := tp.Choose(4, "broker") != 0
 	if fixed != nil {
 		hasBroker = fixedBroker
@@ -251,6 +252,10 @@ func runGateSeqOps(rc *RunCtx, prop string, fixed []gateOp, fixedBroker bool) {
 			case c < 14:
 				// advances around the expiration boundary on purpose
 				d := []int64{1, int64(E) / 2, int64(E) - 1, int64(E), int64(E) + 1, 2 * int64(E), int64(E) / 3}[tp.Choose(7, "adv")]
+				if E > 1000*time.Hour {
+					// "never": any ordinary amount of time may pass
+					d = []int64{1, int64(time.Hour), int64(24 * time.Hour), int64(90 * 24 * time.Hour), int64(time.Second), int64(time.Minute), int64(1000 * time.Hour)}[tp.Choose(7, "adv-long")]
+				}
 				op = gateOp{Kind: "advance", D: d}
 			case c < 15:
 				op = gateOp{Kind: "flushall"}
